@@ -11,6 +11,8 @@ import (
 	"testing"
 
 	"github.com/dcaiafa/lox/verifharness/lib/ev"
+	"github.com/dcaiafa/lox/verifharness/lib/lexgen"
+	"github.com/dcaiafa/lox/verifharness/lib/lexm"
 	"github.com/dcaiafa/lox/verifharness/lib/loxb"
 	"pgregory.net/rapid"
 )
@@ -410,14 +412,46 @@ func inject(rt *rapid.T, b *base, kind string) bool {
 	case "empty-literal-parser":
 		addRule("extra", "extra = "+tok+" ''")
 	case "reversed-range":
-		addLex("token", "RR", "RR = '~r~' [z-a]")
+		addLex("token", "RR", "RR = '~r~' "+reversedClass(rt))
 	case "reversed-range-in-macro":
-		addLex("macro", "RRM", "@macro RRM = [0-9] | ~[\\u0100-\\u0041]")
+		addLex("macro", "RRM", "@macro RRM = [0-9] | "+reversedClass(rt))
 		c.Where += ",inside-macro"
 	default:
 		return false
 	}
 	return true
+}
+
+// reversedClass renders a character class holding one range whose lower bound is above its upper
+// bound; the bounds come from the boundary-biased pool (U+0000, U+10FFFF, ...), the range sits among
+// well-formed items, and the class may be negated or the right operand of a difference.
+func reversedClass(rt *rapid.T) string {
+	var lo, hi rune
+	for lo <= hi {
+		lo = lexgen.Pool[ri(rt, 0, len(lexgen.Pool)-1, "rlo")]
+		hi = lexgen.Pool[ri(rt, 0, len(lexgen.Pool)-1, "rhi")]
+		if ri(rt, 0, 3, "rzero") == 0 {
+			hi = 0
+		}
+		if lo >= 0xD800 && lo <= 0xDFFF || hi >= 0xD800 && hi <= 0xDFFF {
+			lo, hi = 0, 0
+		}
+	}
+	body := lexm.Esc(lo, true) + "-" + lexm.Esc(hi, true)
+	if ri(rt, 0, 1, "rpre") == 0 {
+		body = "0-9" + body
+	}
+	if ri(rt, 0, 1, "rpost") == 0 {
+		body += "A-Z_"
+	}
+	cls := "[" + body + "]"
+	switch ri(rt, 0, 3, "rform") {
+	case 0:
+		return "~" + cls
+	case 1:
+		return "[a-z] - " + cls
+	}
+	return cls
 }
 
 // ---- evaluation -------------------------------------------------------------------
